@@ -42,7 +42,11 @@ where
         loop {
             match core_iter.next() {
                 Some(x) => self.values[i] = Some(x),
-                None => break,
+                None => {
+                    // the wrapped iterator must not be polled again
+                    iter.complete();
+                    break;
+                }
             }
 
             i += 1;
